@@ -57,6 +57,21 @@ var Fragments = []Fragment{
 	{Name: "pat-substring", Class: "pattern", Lax: true, Leaves: Conf{"/cons/pat": "xxab1yy"}},
 	{Name: "maxonly-over", Class: "max-elements", Lax: true, Leaves: Conf{"/cons/grp[name=g4]/members": "[a,b]", "/cons/grp[name=g4]/maxonly": "[x,y,z]"}},
 	{Name: "must-int-bad", Class: "must", Lax: true, Leaves: Conf{"/cons/ilo": "5", "/cons/ihi": "-1"}},
+	// ---- appended later (stored cases address fragments by index: only ever append)
+	// a leaf with a schema default set explicitly, and the must that reads it
+	{Name: "defmode-on", Leaves: Conf{"/cons/defmode": "on"}},
+	{Name: "defmode-on-dep", Leaves: Conf{"/cons/defmode": "on", "/cons/defdep": "x"}},
+	{Name: "defmode-off", Leaves: Conf{"/cons/defmode": "off"}},
+	{Name: "defmode-off-dep", Class: "must", Leaves: Conf{"/cons/defmode": "off", "/cons/defdep": "x"}},
+	// leafref with a key predicate relative to current(), several instances bound to different keys
+	{Name: "via-ok", Leaves: Conf{"/cons/svc[name=a]/kind": "gold", "/cons/ref[name=v1]/svcname": "a", "/cons/ref[name=v1]/viasvc": "gold"}},
+	{Name: "via-ok2", Leaves: Conf{"/cons/svc[name=b]/kind": "silver", "/cons/ref[name=v2]/svcname": "b", "/cons/ref[name=v2]/viasvc": "silver"}},
+	{Name: "via-bad", Class: "leafref", Leaves: Conf{"/cons/svc[name=a]/kind": "gold", "/cons/ref[name=v3]/svcname": "a", "/cons/ref[name=v3]/viasvc": "silver"}},
+	// must over a list predicate that ends at a defaulted leaf; must over two siblings
+	{Name: "wref-ok", Leaves: Conf{"/cons/svc[name=a]/kind": "gold", "/cons/ref[name=w1]/wref": "a"}},
+	{Name: "wref-bad", Class: "must", Leaves: Conf{"/cons/ref[name=w2]/wref": "nosuch"}},
+	{Name: "chk-ok", Leaves: Conf{"/cons/ref[name=c1]/svcname": "a", "/cons/ref[name=c1]/chk": "c"}},
+	{Name: "chk-bad", Class: "must", Leaves: Conf{"/cons/ref[name=c2]/chk": "c"}},
 }
 
 func FragmentIndex(name string) int {
